@@ -8,7 +8,8 @@
 From Coq Require Import ZArith QArith List.
 From Basana Require Import Num.DecQ Num.DecQProofs Exchange.Model Exchange.OrderProofs Exchange.FeeProofs
      Exchange.LifeProofs Exchange.Prims Exchange.Structure Exchange.LedgerProofs Exchange.BarLiquidity
-     Exchange.Reconfig Exchange.ReconfigProofs.
+     Exchange.Reconfig Exchange.ReconfigProofs
+     Exchange.FillTimes Exchange.GridProofs.
 Import ListNotations.
 Open Scope Q_scope.
 
@@ -83,3 +84,39 @@ Theorem C08_set_symbol_precision_takes_effect_at_once : forall c p b q,
   (lookup_sym (c_sym_prec c) (fst p) = Some b -> get_pair_info (reconf c (XSymPrec (snd p) q)) p = Ok (b, q)).
 Proof. exact set_symbol_precision_effective. Qed.
 Print Assumptions C08_set_symbol_precision_takes_effect_at_once.
+
+(* whole history: in every state reachable through any operation sequence, every order's filled amount is a multiple
+   of the base precision and its traded quote amount and fees are multiples of the quote precision configured for its
+   pair -- and so is every single fill recorded on it *)
+Theorem C08_order_amounts_on_grid_in_every_reachable_state : forall c initial ops i o bp qp,
+  cfg_ok c -> ops_ok ops ->
+  nth_error (s_orders (run c (init_st initial) ops)) i = Some o ->
+  get_pair_info c (o_pair o) = Ok (bp, qp) ->
+  on_grid bp (filled o) /\ on_grid qp (qfilled o) /\ on_grid qp (o_fee o) /\
+  Forall (fun f => on_grid bp (f_base f) /\ on_grid qp (f_quote f) /\ on_grid qp (f_fee f)) (o_fills o).
+Proof. exact order_amounts_on_grid. Qed.
+Print Assumptions C08_order_amounts_on_grid_in_every_reachable_state.
+
+Theorem C08_order_amounts_are_the_sums_of_its_fills : forall c initial ops i o,
+  cfg_ok c -> ops_ok ops ->
+  nth_error (s_orders (run c (init_st initial) ops)) i = Some o ->
+  o_fb o == fsum f_base (o_fills o) /\ o_fq o == fsum f_quote (o_fills o) /\ o_fee o == fsum f_fee (o_fills o).
+Proof. exact order_amounts_are_fill_sums. Qed.
+Print Assumptions C08_order_amounts_are_the_sums_of_its_fills.
+
+(* the premises are met by a history with two partial fills, a fee with a minimum, and off-grid raw amounts *)
+Example C08_grid_premises_met :
+  let c := mkCfg [(1%positive, 2%nat); (2%positive, 2%nat)] [] None (PctFee (1#4) (1#100)) (VolShare 25 0) NoLoans in
+  let p := (1%positive, 2%positive) in
+  let ops := [OBar p 60%Z (mkBar 100 100 100 100 10); OCreate (KLimit (10001#100)) Buy p 5 false false;
+              OBar p 120%Z (mkBar 100 101 99 100 (37#3)); OBar p 180%Z (mkBar 100 101 99 100 (41#7))] in
+  let s := run c (init_st [(2%positive, 1000)]) ops in
+  cfg_ok c /\ ops_ok ops /\
+  match nth_error (s_orders s) 0 with
+  | Some o => get_pair_info c (o_pair o) = Ok (2%nat, 2%nat) /\ length (o_fills o) = 2%nat /\ Qeq_bool (filled o) (454#100) = true
+  | None => False
+  end.
+Proof.
+  cbv zeta. split; [unfold cfg_ok; cbn; discriminate|]. split; [repeat constructor; cbn; discriminate|].
+  vm_compute. repeat split; reflexivity.
+Qed.
